@@ -26,13 +26,13 @@ Cfgs == {c \in [kind : {"uni", "geo", "geoL", "fun", "free"}, N : 1..(IF Thoroug
             /\ (c.bnd = "none" => c.bv = One)}
 GOf(c) == LET G0 == WithLocal(Base(c.kind, c.N), c.lt0, c.lT)
           IN CASE c.bnd = "none" -> G0 [] c.bnd = "min" -> WithMin(G0, c.bv) [] c.bnd = "max" -> WithMax(G0, c.bv)
-Consistent(c) == GvOf(IF c.kind = "free" THEN CumSum(c.t0, [k \in 1..c.N |-> Mul(c.T, Q(IF k % 2 = 1 THEN 1 ELSE 2, (3 * c.N - (c.N % 2)) \div 2))], 1)
+Consistent(c) == GvOf(IF c.kind = "free" THEN CumSum(c.t0, Tup([k \in 1..c.N |-> Mul(c.T, Q(IF k % 2 = 1 THEN 1 ELSE 2, (3 * c.N - (c.N % 2)) \div 2))]), 1)
                       ELSE Declared(GOf(c), c.N, c.t0, c.T), c.N)
 Deltas == {Zero, Q(1, 2), Q(-1, 4)}
 \* perturb at most one T_local and one t0_local entry
 Gvs(c) == LET g0 == Consistent(c)
-          IN {[Tl |-> [k \in 1..c.N |-> IF k = i THEN Add(g0.Tl[k], d1) ELSE g0.Tl[k]],
-               t0l |-> [k \in 1..c.N + 1 |-> IF k = j THEN Add(g0.t0l[k], d2) ELSE g0.t0l[k]]] :
+          IN {[Tl |-> Tup([k \in 1..c.N |-> IF k = i THEN Add(g0.Tl[k], d1) ELSE g0.Tl[k]]),
+               t0l |-> Tup([k \in 1..c.N + 1 |-> IF k = j THEN Add(g0.t0l[k], d2) ELSE g0.t0l[k]])] :
                  i \in 1..c.N, j \in 2..c.N + 1, d1 \in Deltas, d2 \in Deltas}
 
 Init == cfg \in Cfgs /\ gv \in Gvs(cfg)
